@@ -11,10 +11,11 @@
                                   observations [run] compares with the implementation.
       FC s y                      y is in failed_steps or cancelled_steps of state s
       reach g u d                 d is u or a descendant of u along the children table
-      own g s' done y             y has an own cause in this poll: an unsuccessful report
-                                  (FAILED / UNKNOWN / CANCELLED / TIMEDOUT) among the dispatched
-                                  reports [done], a failed submission event, or it was popped from
-                                  the ready queue after a cancel request (all parents completed).
+      rown s' done w              w has an own cause in this poll: an unsuccessful report (FAILED /
+                                  UNKNOWN / CANCELLED / TIMEDOUT) among the dispatched reports
+                                  [done], or a failed submission event [ESubmit w _ _ None] in [evs s']
+      popped g s' y               y was popped from the ready queue after a cancel request: the
+                                  study is canceled, y is cancelled, all its parents completed.
     Hypotheses: [wf_graph g] (parents precede children, the two adjacency tables agree -- checked on
     every generated case); [valid_pins]: the reports of every poll mention only steps that are in
     progress, each at most once.  Any throttle, attempts, dry-run flag, restart limits, submission
@@ -22,7 +23,7 @@
 
     Monitor codes (Exec/ExecTrace.v, family 2, checked at run time on the implementation's and on
     the model's trace of every correspondence case):
-      2   ESubmit of a descendant of a dead node      <->  C02_no_submit (later polls)
+      2   ESubmit of a descendant of a dead node      <->  C02_no_submit, C02_no_submit_same_poll
       21  descendants' rows FAILED/CANCELLED           <->  C02_marked, C02_marked_in_poll
       22  dead node's own row FAILED/CANCELLED/TIMEDOUT<->  C02_stays (st_fc), C02_marked_in_poll
       23  a FAILED/CANCELLED row has a cause            <->  C02_exact_poll, C02_exact
@@ -39,6 +40,15 @@ Theorem C02_no_submit : forall c g ps, wf_graph g = true -> valid_pins c g (init
   FC (e_post e1) u -> reach g u x -> ~ In (ESubmit x k sc res) (evs (e_post e2)).
 Proof. exact C02_no_submit_proof. Qed.
 Print Assumptions C02_no_submit.
+
+(** Within one poll: a node that is submitted in a poll is not a strict descendant of any node that
+    is failed or cancelled at the end of that poll (so a report that kills u -- see
+    C02_marked_in_poll -- excludes any submission of u's dependents in the same poll too). *)
+Theorem C02_no_submit_same_poll : forall c g ps, wf_graph g = true -> valid_pins c g (init g) ps = true ->
+  forall e u x k sc res, In e (run_trace c g (init g) ps) ->
+  In (ESubmit x k sc res) (evs (e_post e)) -> FC (e_post e) u -> reach g u x -> u = x.
+Proof. exact C02_no_submit_same_poll_proof. Qed.
+Print Assumptions C02_no_submit_same_poll.
 
 (** At the end of every poll, the whole sub-tree of a failed node -- and of a cancelled node,
     unless it was merely popped from the ready queue after a cancel request -- is in
@@ -74,23 +84,27 @@ Theorem C02_stays : forall c g ps, wf_graph g = true -> valid_pins c g (init g) 
 Proof. exact C02_stays_proof. Qed.
 Print Assumptions C02_stays.
 
-(** Nothing else is swept.  A node that is failed/cancelled after a poll was so before, or has an
-    own cause in this poll, or has a parent that is failed/cancelled after this poll. *)
+(** Nothing else is swept.  A node that is failed/cancelled after a poll was so before the poll, or
+    was itself popped from the ready queue after a cancel request (all its parents completed), or
+    lies in the sub-tree of a node w that got an unsuccessful report (FAILED / UNKNOWN / CANCELLED /
+    TIMEDOUT, query code OK) or had a failed submission in this very poll -- and w itself is
+    failed/cancelled at the end of the poll. *)
 Theorem C02_exact_poll : forall c g ps, wf_graph g = true -> valid_pins c g (init g) ps = true ->
   forall e y, In e (run_trace c g (init g) ps) -> 0 < attempts c ->
   FC (e_post e) y ->
-  FC (e_pre e) y \/ own g (e_post e) (done_final c (e_pin e)) y \/
-  exists z, In z (parents (attr g y)) /\ FC (e_post e) z.
+  FC (e_pre e) y \/
+  popped g (e_post e) y \/
+  exists w, rown (e_post e) (done_final c (e_pin e)) w /\ reach g w y /\ FC (e_post e) w.
 Proof. exact C02_exact_poll_proof. Qed.
 Print Assumptions C02_exact_poll.
 
-(** Over the whole history: every failed/cancelled node is, or descends from, a node that had an
-    own cause in one of the polls so far (and was failed/cancelled at the end of that poll). *)
+(** Over the whole history: every failed/cancelled node has such a cause in one of the polls so far. *)
 Theorem C02_exact : forall c g ps, wf_graph g = true -> valid_pins c g (init g) ps = true ->
   forall tr1 e tr2 y, 0 < attempts c ->
   run_trace c g (init g) ps = tr1 ++ e :: tr2 -> FC (e_post e) y ->
-  exists u e', reach g u y /\ In e' (tr1 ++ [e]) /\
-               own g (e_post e') (done_final c (e_pin e')) u /\ FC (e_post e') u.
+  exists e', In e' (tr1 ++ [e]) /\
+    (popped g (e_post e') y \/
+     exists w, rown (e_post e') (done_final c (e_pin e')) w /\ reach g w y /\ FC (e_post e') w).
 Proof. exact C02_exact_proof. Qed.
 Print Assumptions C02_exact.
 
@@ -103,10 +117,8 @@ Print Assumptions C02_invariant.
 (** C02_rest_runs (every step none of whose ancestors ended unsuccessfully is run to completion
     at normal termination) is a corollary of C05's [ran_all_enabled] and liveness and is NOT proved
     here; monitor code 24 checks it at run time on every implementation and model trace.
-    C02_no_submit covers LATER polls; the same-poll case (a report kills u and the launch loop of
-    the same poll would submit a descendant) is covered by monitor code 2 at run time and, at the
-    state level, by C02_marked_in_poll + C02_stays (the descendant is failed, hence not in
-    progress, at the end of that poll). *)
+    Monitor family 2 itself is not proved silent on the model trace here (it needs the ledger
+    coupling of the dead / succeeded sets, exec-ledger's area); it is checked at run time. *)
 
 (** Non-vacuity.  Steps 0 -> 1 and an independent step 2: the hypotheses hold; poll 2 delivers
     FAILED to step 0, after it 0 and 1 are failed with rows FAILED while 2 keeps running; poll 3
